@@ -185,6 +185,8 @@ def run(ctx):
     part = core.fan_out(ctx, _rows_chunk, chunks)
     longs = long_rows(rates, accums)
     part.merge(core.fan_out(ctx, _long_chunk, core.split(longs, 32)))
+    from .. import calcseq                 # pylint: disable=import-outside-toplevel
+    part.merge(calcseq.explore(ctx, ['move_dist_lt']))
     cnt = part.counters
     states = cnt.get("states", 0) + cnt.get("long_moves", 0)
     coverage = {
@@ -208,6 +210,7 @@ def run(ctx):
         "clear_to_max_states": cnt.get("clear_to_max_states", 0),
         "model_conformance_checks": cnt.get("model_conformance_checks", 0),
         "alphabet_sizes": {"rate": len(rates), "accel": len(accels), "accum": len(accums)},
+        "call_histories_siblings_then_twice": cnt.get("calc_histories", 0),
         "exhaustive": True,
     }
     assumptions = [
@@ -219,6 +222,9 @@ def run(ctx):
 
 
 def replay(case):
+    if case.get("kind") == "calc_history":
+        from .. import calcseq             # pylint: disable=import-outside-toplevel
+        return calcseq.replay(case)
     rate, accel, ticks, accum = case["rate"], case["accel"], case["ticks"], case["accum"]
     config = tuple(case["config"]) if case.get("config") else None
     if ticks <= 4096:
